@@ -325,7 +325,9 @@ class Prop:
             # the same process compiled another algorithm of the same name before (notebook / REPL re-definition)
             g2 = Gen(r, dict(self.features), inputs=inputs)
             src2, names2, products2, _ = g2.program()
-            case["prelude"] = {"src": src2, "ops": self._schedule(r, inputs + names2 + products2, names2[-1:], nb, ninf, cap, tier)[:8]}
+            nb2 = r.choice([nb, nb, 1, 2, 3])  # the earlier computation may have another block structure
+            case["prelude"] = {"src": src2, "nb": nb2,
+                               "ops": self._schedule(r, inputs + names2 + products2, names2[-1:], nb2, ninf, cap, tier)[:8]}
         return case
 
     def gen_T(self, r, tier):
@@ -449,17 +451,22 @@ class Prop:
         if pre and case["family"] == "G":
             sub = {k: v for k, v in case.items() if k != "prelude"}
             sub.update(src=pre["src"], ops=pre["ops"])
-            out0 = self._execute_one(sub, clear=False)
+            if pre.get("nb"):
+                sub.update(nb=pre["nb"], flags=[bool(k % 2) for k in range(pre["nb"])])
+            shared = {}  # the caller reuses one scope dictionary for both computations
+            out0 = self._execute_one(sub, clear=False, shared_scope=shared)
             if out0["violation"]:
                 return out0
-        out = self._execute_one(case, clear=True)
+            out = self._execute_one(case, clear=True, shared_scope=shared)
+        else:
+            out = self._execute_one(case, clear=True)
         if out0 is not None:
             out["counters"]["prelude_program"] = 1
             out["events"] += out0["events"]
             out["digest"] = hashlib.sha256((out0["digest"] + out["digest"]).encode()).hexdigest()
         return out
 
-    def _execute_one(self, case, clear=True):
+    def _execute_one(self, case, clear=True, shared_scope=None):
         from pymablock import algorithms
         from pymablock.algorithm_parsing import _parse_algorithm, series_computation
         from pymablock.series import PENDING, BlockSeries, one, zero
@@ -541,7 +548,12 @@ class Prop:
                 compiled_inputs[name] = BlockSeries(eval=(lambda *index, tab=tab: tab.get(tuple(int(i) for i in index), zero)),
                                                     data=known, shape=(nb, nb), n_infinite=ninf, name=name)
             try:
-                series, linop = series_computation(dict(compiled_inputs), algorithm=algo, scope=dict(scope), operator=matmul)
+                if shared_scope is not None:
+                    shared_scope.update(scope)
+                    scope_arg = shared_scope
+                else:
+                    scope_arg = dict(scope)
+                series, linop = series_computation(dict(compiled_inputs), algorithm=algo, scope=scope_arg, operator=matmul)
             except Exception as e:
                 return self._out({"class": "compile-error", "detail": f"series_computation raised {type(e).__name__}: {e}"},
                                  events, counters, False)
